@@ -435,4 +435,165 @@ example : (⟨7, #[0xffffffffffffffff#64, 0x5#64]⟩ : Lut).WF ∧
   · unfold Lut.WF; decide +kernel
   · decide +kernel
 
+
+/-! ## the provided methods of `Iterator`: `nth`, `skip`, `step_by`, `count`, `last`
+
+`LutIterator` implements `next` only; the model defines the library's defaults on top of it
+(`Dyn.Iter.advance / nth / stepBy / rest`).  They select exactly the items of the enumeration. -/
+
+theorem advance_succ' (it : Dyn.Iter) (k : Nat) : it.advance (k + 1) = (it.advance k).next.2 := by
+  induction k generalizing it with
+  | zero => rfl
+  | succ k ih =>
+    show (it.next.2).advance (k + 1) = ((it.next.2).advance k).next.2
+    exact ih _
+
+theorem advance_eq_iterN (it : Dyn.Iter) (k : Nat) : it.advance k = iterN it k := by
+  induction k with
+  | zero => rfl
+  | succ k ih => rw [advance_succ', ih]; rfl
+
+theorem advance_add (it : Dyn.Iter) (a b : Nat) : (it.advance a).advance b = it.advance (a + b) := by
+  induction b with
+  | zero => rfl
+  | succ b ih => rw [advance_succ', ih, ← Nat.add_assoc, advance_succ']
+
+/-- `nth(b)` after `a` items were taken returns item number `a + b` of the enumeration -/
+theorem nth_spec (n a b : Nat) : (((Dyn.allFunctions n).advance a).nth b).1 = nthItem n (a + b) := by
+  unfold Dyn.Iter.nth nthItem
+  rw [advance_add, advance_eq_iterN]
+
+/-- ... and leaves the iterator where `a + b + 1` calls of `next` leave it -/
+theorem nth_state (n a b : Nat) :
+    (((Dyn.allFunctions n).advance a).nth b).2 = (Dyn.allFunctions n).advance (a + b + 1) := by
+  unfold Dyn.Iter.nth
+  rw [advance_add, advance_succ']
+
+/-- a jump inside the enumeration lands on the function whose table is the number `a + b` -/
+theorem nth_inside (n a b : Nat) (h : a + b < 2 ^ (2 ^ n)) :
+    ∃ l, (((Dyn.allFunctions n).advance a).nth b).1 = some l ∧ l.n = n ∧ l.WF ∧ toNat l = a + b := by
+  rw [nth_spec]; exact nthItem_lt n (a + b) h
+
+/-- a jump to or beyond the end returns `None`, and so does every later call -/
+theorem nth_beyond (n a b : Nat) (h : 2 ^ (2 ^ n) ≤ a + b) :
+    (((Dyn.allFunctions n).advance a).nth b).1 = none ∧
+    ∀ j, ((((Dyn.allFunctions n).advance a).nth b).2.advance j).next.1 = none := by
+  refine ⟨by rw [nth_spec]; exact nthItem_ge n _ h, ?_⟩
+  intro j
+  rw [nth_state, advance_add, advance_eq_iterN]
+  exact nthItem_ge n _ (by omega)
+
+/-- poll number `k` of `step_by(step)` (step >= 1) is item number `a + k * step` -/
+theorem stepBy_spec (n a step cnt k : Nat) (hs : 1 ≤ step) (hk : k < cnt) :
+    (((Dyn.allFunctions n).advance a).stepBy step cnt true)[k]? = some (nthItem n (a + k * step)) := by
+  -- generalised: from position p, `first` or not
+  have gen : ∀ cnt p k, k < cnt →
+      ((((Dyn.allFunctions n).advance p).stepBy step cnt true)[k]? = some (nthItem n (p + k * step))) ∧
+      ((((Dyn.allFunctions n).advance (p + 1)).stepBy step cnt false)[k]? = some (nthItem n (p + (k + 1) * step))) := by
+    intro cnt
+    induction cnt with
+    | zero => intro p k hk; omega
+    | succ cnt ih =>
+      intro p k hk
+      constructor
+      · unfold Dyn.Iter.stepBy
+        cases k with
+        | zero =>
+          simp only [if_true, List.getElem?_cons_zero, Nat.zero_mul, Nat.add_zero]
+          rw [nthItem, ← advance_eq_iterN]
+        | succ k =>
+          simp only [if_true, List.getElem?_cons_succ]
+          have e : ((Dyn.allFunctions n).advance p).next.2 = (Dyn.allFunctions n).advance (p + 1) := by
+            rw [advance_succ']
+          rw [e]
+          exact (ih p k (by omega)).2
+      · unfold Dyn.Iter.stepBy
+        have hnth : ((Dyn.allFunctions n).advance (p + 1)).nth (step - 1) =
+            (nthItem n (p + step), (Dyn.allFunctions n).advance (p + step + 1)) := by
+          have h1 := nth_spec n (p + 1) (step - 1)
+          have h2 := nth_state n (p + 1) (step - 1)
+          have e1 : p + 1 + (step - 1) = p + step := by omega
+          rw [e1] at h1 h2
+          exact Prod.ext h1 h2
+        cases k with
+        | zero =>
+          simp only [Bool.false_eq_true, if_false, List.getElem?_cons_zero, hnth, Nat.zero_add, Nat.one_mul]
+        | succ k =>
+          simp only [Bool.false_eq_true, if_false, List.getElem?_cons_succ, hnth]
+          have := (ih (p + step) k (by omega)).2
+          rw [this]
+          congr 2
+          rw [Nat.add_mul (k + 1) 1 step, Nat.one_mul]; omega
+  exact (gen cnt a k hk).1
+
+
+theorem next_at (n p : Nat) :
+    ((Dyn.allFunctions n).advance p).next = (nthItem n p, (Dyn.allFunctions n).advance (p + 1)) := by
+  apply Prod.ext
+  · show _ = nthItem n p
+    rw [nthItem, ← advance_eq_iterN]
+  · rw [advance_succ']
+
+/-- the items that are left after `p` calls of `next`, in order: what `count`, `last`, `fold`,
+`min`, `max`, `collect` consume -/
+theorem rest_spec (n fuel p : Nat) :
+    (((Dyn.allFunctions n).advance p).rest fuel).1 =
+      (List.range (min fuel (2 ^ (2 ^ n) - p))).filterMap (fun j => nthItem n (p + j)) := by
+  induction fuel generalizing p with
+  | zero => simp [Dyn.Iter.rest]
+  | succ fuel ih =>
+    unfold Dyn.Iter.rest
+    rw [next_at]
+    by_cases hp : p < 2 ^ (2 ^ n)
+    · obtain ⟨l, hl, _⟩ := nthItem_lt n p hp
+      simp only [hl]
+      rw [ih (p + 1)]
+      have hm : min (fuel + 1) (2 ^ (2 ^ n) - p) = min fuel (2 ^ (2 ^ n) - (p + 1)) + 1 := by omega
+      rw [hm, List.range_succ_eq_map, List.filterMap_cons]
+      simp only [Nat.add_zero, hl, List.filterMap_map]
+      congr 1
+      have hf : ((fun j => nthItem n (p + j)) ∘ Nat.succ) = (fun j => nthItem n (p + 1 + j)) := by
+        funext j
+        simp only [Function.comp]
+        congr 1; omega
+      rw [hf]
+    · have hn := nthItem_ge n p (by omega)
+      simp only [hn]
+      have hm : min (fuel + 1) (2 ^ (2 ^ n) - p) = 0 := by omega
+      rw [hm]; rfl
+
+/-- `count()` after `p` items: the number of functions that are left -/
+theorem count_spec (n fuel p : Nat) (hf : 2 ^ (2 ^ n) ≤ fuel) :
+    (((Dyn.allFunctions n).advance p).rest fuel).1.length = 2 ^ (2 ^ n) - p := by
+  rw [rest_spec]
+  have hm : min fuel (2 ^ (2 ^ n) - p) = 2 ^ (2 ^ n) - p := by omega
+  rw [hm]
+  -- every index of the range gives an item
+  have : ∀ m, m ≤ 2 ^ (2 ^ n) - p →
+      ((List.range m).filterMap (fun j => nthItem n (p + j))).length = m := by
+    intro m
+    induction m with
+    | zero => intro _; rfl
+    | succ m ih =>
+      intro hm
+      rw [List.range_succ, List.filterMap_append, List.length_append, ih (by omega)]
+      obtain ⟨l, hl, _⟩ := nthItem_lt n (p + m) (by omega)
+      simp [hl]
+  exact this _ (Nat.le_refl _)
+
+/-- `last()` after `p < 2^(2^n)` items is the constant one function (the number 2^(2^n) - 1) -/
+theorem last_spec (n fuel p : Nat) (hf : 2 ^ (2 ^ n) ≤ fuel) (hp : p < 2 ^ (2 ^ n)) :
+    (((Dyn.allFunctions n).advance p).rest fuel).1.getLast? = nthItem n (2 ^ (2 ^ n) - 1) := by
+  rw [rest_spec]
+  have hm : min fuel (2 ^ (2 ^ n) - p) = (2 ^ (2 ^ n) - p - 1) + 1 := by omega
+  rw [hm, List.range_succ, List.filterMap_append]
+  obtain ⟨l, hl, _⟩ := nthItem_lt n (2 ^ (2 ^ n) - 1) (by omega)
+  have e : p + (2 ^ (2 ^ n) - p - 1) = 2 ^ (2 ^ n) - 1 := by omega
+  simp [e, hl]
+
+/-- non-vacuity: three variables, jump over the end -/
+example : (((Dyn.allFunctions 1).advance 1).nth 2).1 = some ⟨1, #[3#64]⟩ ∧
+    (((Dyn.allFunctions 1).advance 1).nth 3).1 = none := by decide +kernel
+
+
 end VoluteModel.Props.C08
